@@ -470,7 +470,7 @@ namespace occa {
       return memory();
     }
 
-    const dim_t bytes = entries * dtype.bytes();
+    const dim_t bytes = entriesToBytes(entries, dtype.bytes());
     OCCA_ERROR("Trying to allocate negative bytes (" << bytes << ")",
                bytes >= 0);
 
@@ -540,7 +540,7 @@ namespace occa {
                                   const occa::json &props) {
     assertInitialized();
 
-    const dim_t bytes = entries * dtype.bytes();
+    const dim_t bytes = entriesToBytes(entries, dtype.bytes());
     OCCA_ERROR("Trying to wrap a pointer with negative bytes (" << bytes << ")",
                bytes >= 0);
 
